@@ -1615,16 +1615,51 @@ def prove_qf(hyps, goal, timeout_ms=10000):
                 s = z3.Then("simplify", "purify-arith", "qfnra-nlsat").solver()
             except Exception:
                 continue
-        s.set("timeout", int(timeout_ms))
         for f in fs:
             s.add(f)
-        try:
-            r = s.check()
-        except Exception:
-            continue
-        if r == z3.unsat:
+        if _hard_check_unsat(s, timeout_ms):
             return True
     return False
+
+
+def _hard_check_unsat(s, timeout_ms):
+    """s.check() == unsat, in a forked child that is killed at the deadline: z3's nlsat does not
+    always honour its own timeout (observed: > 30 min on a 10 s budget), and a check that hangs
+    decides nothing.  No z3 timer is set in the child (z3's timer threads do not survive fork)."""
+    import os
+    import signal
+
+    try:
+        pid = os.fork()
+    except OSError:
+        s.set("timeout", int(timeout_ms))
+        try:
+            return s.check() == z3.unsat
+        except Exception:
+            return False
+    if pid == 0:
+        code = 12
+        try:
+            r = s.check()
+            code = 10 if r == z3.unsat else 11 if r == z3.sat else 12
+        except BaseException:
+            code = 12
+        os._exit(code)
+    deadline = time.time() + timeout_ms / 1000.0
+    delay = 0.002
+    while True:
+        done, status = os.waitpid(pid, os.WNOHANG)
+        if done:
+            return os.WIFEXITED(status) and os.WEXITSTATUS(status) == 10
+        if time.time() > deadline:
+            try:
+                os.kill(pid, signal.SIGKILL)
+            except OSError:
+                pass
+            os.waitpid(pid, 0)
+            return False
+        time.sleep(delay)
+        delay = min(delay * 1.5, 0.05)
 
 
 def _cvc5_check(solver, timeout_ms):
